@@ -28,7 +28,7 @@ func runProperty(prop *Property, p *Prog, a *Anchors) (obs []*Obligation) {
 		}()
 		sites := 0
 		for _, o := range c.Obs {
-			sites += len(o.Examined)
+			sites += max(1, len(o.Examined))
 		}
 		if sites < r.MinSites {
 			c.Undecided(r.ID, "vacuity", "rule must examine its minimum number of sites",
